@@ -10,7 +10,13 @@ The oracle contract is re-evaluated on the five real back ends by props/C03/h_co
 
 Search: (a) an independent Python evaluation of the property on the C output of every component case
 (cases.py: EVAL), (b) real gensquashfs / tar2sqfs on generated trees x all compressors x block sizes x -e / -T /
--B, every image checked by validate_ext (vlib.sqfsimg.Image.validate + props/C03/validate_ext.py)."""
+-B, every image checked by validate_ext (vlib.sqfsimg.Image.validate + props/C03/validate_ext.py).
+
+Whole image (coq/Image, props/C03/image_stage.py): exact tie of write_image against the real sqfs_writer_init + sqfs_writer_finish,
+extracted valid_image + reader specification on the C output and on real images.
+Xattr section (coq/ImgXattr, props/C03/xattr_stage.py): exact tie of the byte-level flush model against the real
+sqfs_xattr_writer_flush, extracted xattr_tail / v_xattr / reader specification on the C bytes and on gensquashfs -A images with
+more than 512 sets.  Both stages run in background threads beside the component tie, the compressor contract and the tool search."""
 import importlib.util
 import json
 import os
@@ -44,6 +50,7 @@ cases_mod = _load("cases")
 validate_ext = _load("validate_ext")
 toolgen = _load("toolgen")
 image_stage = _load("image_stage")       # whole-image stage (coq/Image): see props/C03/image_stage.py
+xattr_stage = _load("xattr_stage")       # xattr section (coq/ImgXattr): see props/C03/xattr_stage.py
 
 ENV = dict(os.environ, ASAN_OPTIONS="detect_leaks=0")
 COMP_NAME = {1: "gzip", 2: "lzma", 4: "xz", 5: "lz4", 6: "zstd"}
@@ -343,6 +350,7 @@ def tool_search(ctx, tools, specs, drv=None):
 # --------------------------------------------------------------------------
 
 def run(ctx):
+    ctx.log("proof obligations checked; building harnesses and model drivers")
     changed, err = gen.regen()
     if err:
         ctx.proof_broken.append("C03/GenC03.v: " + err)
@@ -380,7 +388,21 @@ def run(ctx):
         ctx.violation("image-model-build-failed",
                       "the whole-image model (coq/Image) or its harness no longer builds against the current tree: %s" % (str(e)[-600:],),
                       dict(kind="proof obligation / model build", detail=str(e)[-3000:]), no_input=True)
+    try:
+        h_xattr, drv_xattr = xattr_stage.build(B, core, info, HERE)
+        dst = os.path.join(bindir, "c03_h_xattr_flush")
+        shutil.copy2(h_xattr, dst)
+        h_xattr = dst
+    except Exception as e:  # the xattr flush model / harness no longer builds against the current tree
+        h_xattr = drv_xattr = None
+        ctx.violation("xattr-model-build-failed",
+                      "the xattr flush model (coq/ImgXattr) or its harness no longer builds against the current tree: %s" % (str(e)[-600:],),
+                      dict(kind="proof obligation / model build", detail=str(e)[-3000:]), no_input=True)
     ctx.trusted += [
+        "props/C03/h_xattr_flush.c (drives the real sqfs_xattr_writer_begin / add_kv / end / flush on an in-memory file, toy "
+        "compressors as in h_image.c), props/C03/xattr_driver.ml (set parsing, hex I/O, the pseudo super block handed to the "
+        "extracted xattr_tail / v_xattr / reader specification, decompressor oracle = system codec libraries for real images), "
+        "props/C03/xattr_stage.py (case generation, expected meaning of a recorded set = last value per key)",
         "props/C03/h_image.c (drives the real sqfs_writer_init / sqfs_writer_finish on a real file; toy compressor injected with "
         "-Wl,--wrap=sqfs_compressor_create; dumps the post-processed fstree, the data area, the fragment table and the xattr section "
         "as the model's inputs), props/C03/image_driver.ml + image_stubs.c (decompressor oracle of the extracted reader = system "
@@ -396,8 +418,12 @@ def run(ctx):
         "compressor oracle contract (include/sqfs/compressor.h): compress b = CData c -> |c| <= |b| /\\ uncompress c = Some b; "
         "re-evaluated on every run on gzip/lzma/xz/lz4/lz4hc/zstd by h_comp.c (meta-writer and block-processor call patterns)",
         "names are NUL-free byte strings (C strings at the API), host is little endian (export table is written in host order)",
-        "not modelled (tool-level search only): write_inode.c/inode.c codecs (C01), xattr writer, fragment/id table contents, "
-        "block processor / block writer, reorder_hard_links",
+        "abstract inputs of the whole-image model: the data area and the fragment entries (block processor / block writer: C08), the "
+        "bytes cmp->write_options writes, the post-processed tree (fstree_post_process incl. reorder_hard_links: coq/ImgPost, C01); the "
+        "xattr section is the flush model's output in writer_valid_with_xattrs (the exact tie of the whole image still takes it from "
+        "the C output, the flush model is tied separately on the same bytes)",
+        "xattr flush model: sqfs_s32 / size_t accumulators unbounded (a key-value block of 2 GiB is out of the model); value bytes "
+        "instead of the hexadecimal strings of the value table (C01: hex_rt)",
     ]
 
     if ctx.replay:
@@ -425,11 +451,26 @@ def run(ctx):
             res = image_stage.real_images(ctx, tools, drv_image, [r["spec"]], "thorough")
             ctx.coverage["evaluations"] = 1
             ctx.coverage["rule"] = "replay of one packer run read by the extracted reader"
+        elif kind == "xattr-lines" and h_xattr:
+            res = xattr_stage.exact_tie(ctx, h_xattr, drv_xattr, [("replay", l) for l in r.get("lines", [])])
+            ctx.coverage["evaluations"] = res["cases"]
+            ctx.coverage["rule"] = "replay of xattr flush cases (exact tie + validator / reader specification on the C bytes)"
+        elif kind == "xattr-real" and h_xattr:
+            res = xattr_stage.real_images(ctx, tools, drv_image, drv_xattr, toolgen, [r["spec"]])
+            ctx.coverage["evaluations"] = 1
+            ctx.coverage["rule"] = "replay of one gensquashfs -A run read by the extracted xattr reader specification"
         else:
             ctx.log("replay file has no re-runnable case (kind=%r)" % kind)
         return
 
+    ctx.log("harnesses and drivers ready")
     rnd = random.Random(ctx.seed)
+    # the whole-image stage and the xattr stage have their own generators (seeded from ctx.seed) and their own scratch
+    # directories: they run beside the component tie / compressor contract / tool search
+    bg = ThreadPoolExecutor(max_workers=2)
+    t0 = time.time()
+    f_img = bg.submit(image_stage.stage, ctx, h_image, drv_image, tools, toolgen, ctx.seed, ctx.tier) if h_image else None
+    f_xat = bg.submit(xattr_stage.stage, ctx, h_xattr, drv_xattr, drv_image, tools, toolgen, ctx.seed, ctx.tier) if h_xattr else None
     cases = cases_mod.all_cases(rnd, ctx.tier)
     comp = component_tie(ctx, h, drv, cases)
     cl = comp_lines(rnd, ctx.tier)
@@ -437,19 +478,28 @@ def run(ctx):
     specs = toolgen.plan(rnd, ctx.tier)
     ts = tool_search(ctx, tools, specs, drv)
     img = None
-    if h_image:
-        t0 = time.time()
-        img = image_stage.stage(ctx, h_image, drv_image, tools, toolgen, ctx.seed, ctx.tier)
-        ctx.log("whole-image stage: %d exact cases (%d equal), %d real images (%d valid, %d trees compared) in %.1fs"
+    if f_img:
+        img = f_img.result()
+        ctx.log("whole-image stage: %d exact cases (%d equal), %d real images (%d valid, %d trees compared), done %.1fs after start"
                 % (img["exact"]["cases"], img["exact"]["exact_equal"], img["real"]["images"], img["real"]["valid"],
                    img["real"]["trees_read"], time.time() - t0))
+    xat = None
+    if f_xat:
+        xat = f_xat.result()
+        ctx.log("xattr stage: %d exact cases (%d equal, %d with two or more id blocks, max %d sets), %d real images (%d ok, max %d sets), "
+                "done %.1fs after start" % (xat["exact"]["cases"], xat["exact"]["exact_equal"], xat["exact"]["two_or_more_id_blocks"],
+                                            xat["exact"]["max_sets"], xat["real"]["images"], xat["real"]["ok"], xat["real"]["max_sets"],
+                                            time.time() - t0))
+    bg.shutdown()
 
     ctx.coverage["evaluations"] = comp["cases"] + cc["calls"] + ts["images"] + \
-        (img["exact"]["cases"] + img["real"]["images"] if img else 0)
+        (img["exact"]["cases"] + img["real"]["images"] if img else 0) + (xat["exact"]["cases"] + xat["real"]["images"] if xat else 0)
     ctx.coverage["distinct_nontrivial"] = comp["nontrivial"] + cc["compressed_results"] + ts["images"] + \
-        (img["exact"]["accepted"] + img["real"]["images"] if img else 0)
-    ctx.coverage["traces_validated_against_impl"] = comp["cases"] + (img["exact"]["cases"] if img else 0)
+        (img["exact"]["accepted"] + img["real"]["images"] if img else 0) + (xat["exact"]["with_table"] + xat["real"]["images"] if xat else 0)
+    ctx.coverage["traces_validated_against_impl"] = comp["cases"] + (img["exact"]["cases"] if img else 0) + \
+        (xat["exact"]["cases"] if xat else 0)
     ctx.coverage["whole_image"] = img
+    ctx.coverage["xattr_section"] = xat
     ctx.coverage["rule"] = (
         "component tie (exact bytes, model vs C): systematic cases at every branch boundary of the models -- appends of "
         "1..24577 bytes around 8192 with/without flush, KEEP_IN_MEMORY on/off, toy compressor modes (never / RLE / "
@@ -466,7 +516,12 @@ def run(ctx):
         "around the block size, no files / only blocks / only fragments, refused block sizes, tables of more than one "
         "metadata block, seeded random trees) with valid_image + read_image_tree on the C output, and the extracted reader "
         "specification + valid_image on real gensquashfs / tar2sqfs images of 8 tree shapes x 5 compressors compared with "
-        "the input tree and with vlib/sqfsimg.py" % ctx.seed)
+        "the input tree and with vlib/sqfsimg.py; xattr stage: exact tie of ImgXattr.xflush against the real sqfs_xattr_writer_flush "
+        "(511 / 512 / 513 / 1024 / 1025 distinct sets, key-value areas ending at 8192 -1 / +0 / +1 / +4, out-of-line values first "
+        "stored in a later compressed block, whole blocks of equal bytes, seeded random sets; store / RLE / zero-run-length "
+        "compressors), the extracted xattr_tail + v_xattr + reader specification on the C bytes compared with the recorded sets, "
+        "and gensquashfs -A images with 620 / 1100 distinct sets through valid_image, v_xattr, v_xattr_inodes and the reader "
+        "specification" % ctx.seed)
     ctx.coverage["component"] = comp
     ctx.coverage["compressor_contract"] = cc
     ctx.coverage["tool_level"] = ts
@@ -480,4 +535,6 @@ def setup():
     gen.regen()
     core.build_model_driver("C03", "ExtractC03.v", os.path.join(HERE, "driver.ml"))
     core.build_model_driver("C03image", "ExtractImage.v", os.path.join(HERE, "image_driver.ml"),
+                            stubs_c=os.path.join(HERE, "image_stubs.c"), cclibs=["-lz", "-llzma", "-llz4", "-lzstd"])
+    core.build_model_driver("C03xattr", "ExtractC03Xattr.v", os.path.join(HERE, "xattr_driver.ml"),
                             stubs_c=os.path.join(HERE, "image_stubs.c"), cclibs=["-lz", "-llzma", "-llz4", "-lzstd"])
